@@ -113,7 +113,8 @@ def judge(sc: dict, obs: dict) -> tuple[list[dict], str | None]:
     # hang: quiescent with a blocked client
     for x in scen.check_progress(sc, obs):
         x = dict(x)
-        x['kind'] = 'hang:client_blocked_after_crash' if crashed else x['kind']
+        if crashed:
+            x['kind'] = 'hang:livelock_after_crash' if x['kind'] == 'progress:livelock' else 'hang:client_blocked_after_crash'
         x['crashed'] = crashed
         w.append(x)
     # shut down rather than continue damaged
